@@ -2,7 +2,7 @@
 # usage: tools/verify_mutant.sh <worktree>   -- confirms: suite passes with patch; demo fails with patch, passes without
 WT="$1"
 cd "$WT" || exit 2
-git stash -q -- src 2>/dev/null; git checkout -q -- src; git apply _mutant/patch.diff || { echo "patch does not apply"; exit 2; }
+git checkout -q -- src; git apply _mutant/patch.diff || { echo "patch does not apply"; exit 2; }
 SUITE=$(PYTHONPATH=$WT/src /venv/bin/python -m pytest -q -p no:cacheprovider --timeout=900 2>&1 | tail -1)
 PYTHONPATH=$WT/src timeout 300 /venv/bin/python _mutant/demo.py >/dev/null 2>&1; RC1=$?
 git checkout -q -- src
